@@ -1090,3 +1090,8 @@ def replay(ctx, payload):
     if res1 != res:
         return "result differs between runs: %s vs %s" % (res1, res)
     return None
+
+
+def explore_shard(ctx):
+    """extra parallel shard of the thorough tier (generated programs; deterministic given the seed)"""
+    return explore(ctx)
